@@ -71,11 +71,18 @@ func (H) Generate(r *simrt.Rand, tier string) any {
 		s.U = 2 + r.Intn(60)
 	}
 	removeHeavy := r.Intn(3) == 0
+	if r.Intn(12) == 0 {
+		// size and shape are knobs too: several hundred mostly distinct values give
+		// trees deep enough for anything sized from log2(n)
+		n = 150 + r.Intn(450)
+		s.U = 200 + r.Intn(800)
+		removeHeavy = false
+	}
 	for i := 0; i < n; i++ {
 		o := Op{V: r.Intn(s.U), Tree: r.Intn(3)}
 		x := r.Intn(100)
 		switch {
-		case x < 40:
+		case x < 40 || (s.U >= 200 && x < 75):
 			o.K = "add"
 		case x < 65 || (removeHeavy && x < 80):
 			o.K = "remove"
@@ -225,6 +232,14 @@ func runHistory[T comparable](sc *Scenario, first avl.Tree[T], conv func(int) T,
 			}
 		}
 		for ti, lt := range trees {
+			if sc.U >= 200 && i%16 != 15 && i != len(sc.Ops)-1 {
+				// big trees: the full comparison every 16th call and at the end, a
+				// cheap one (size) in between
+				if got := lt.tree.Len(); got != len(lt.model) {
+					return &core.Violation{Signature: "len-mismatch:" + cat, Detail: fmt.Sprintf("after op %d %s, tree %d: Len()=%d want %d", i, o, ti, got, len(lt.model))}, h, changes
+				}
+				continue
+			}
 			if v := checkTree(lt, sc.U, conv); v != nil {
 				v.Signature += ":" + cat
 				v.Detail = fmt.Sprintf("after op %d %s (elem=%s), tree %d: %s", i, o, sc.Elem, ti, v.Detail)
@@ -259,7 +274,11 @@ func checkTree[T comparable](lt *live[T], u int, conv func(int) T) *core.Violati
 	for _, v := range lt.model {
 		cnt[v]++
 	}
-	for i := 0; i < u; i++ {
+	step := 1
+	if u >= 200 {
+		step = 7 // a sample of the universe is enough for big ones
+	}
+	for i := 0; i < u; i += step {
 		v := conv(i)
 		if got := lt.tree.Contains(v); got != (cnt[v] > 0) {
 			return &core.Violation{Signature: "contains-mismatch", Detail: fmt.Sprintf("Contains(%v)=%v but the multiset holds it %d times", v, got, cnt[v])}
@@ -279,28 +298,80 @@ func checkTree[T comparable](lt *live[T], u int, conv func(int) T) *core.Violati
 	if got, want := lt.tree.String(), fmt.Sprint(in); got != want {
 		return &core.Violation{Signature: "string-mismatch", Detail: fmt.Sprintf("String()=%q want %q", got, want)}
 	}
+	// the returned slices belong to the caller: overwriting them must not reach
+	// the tree (the next check reads everything again)
+	for _, sl := range [][]T{in, pre, post} {
+		for i, j := 0, len(sl)-1; i < j; i, j = i+1, j-1 {
+			sl[i], sl[j] = sl[j], sl[i]
+		}
+		if len(sl) > 0 {
+			sl[0] = conv(u + 5)
+		}
+	}
 	return nil
 }
 
 // oneTree reports whether some binary tree has exactly these three traversals
-// (with duplicates the root's position in the in-order sequence is ambiguous,
-// so every candidate split is tried).
+// (with duplicates the root's position in the in-order sequence is ambiguous, so
+// every candidate split is tried; the roots of both subtrees are known from the
+// pre- and post-order sequences, which prunes almost every wrong split, and
+// failed sub-problems are remembered).
 func oneTree[T comparable](pre, in, post []T) bool {
-	n := len(pre)
-	if n == 0 {
-		return true
+	ok, _ := oneTreeBudget(pre, in, post, 200000)
+	return ok
+}
+
+// oneTreeBudget gives up (reporting true, inconclusive) after budget
+// sub-problems: the search is exponential for long runs of equal values, and an
+// oracle that cannot finish must stay silent rather than stall the run.
+func oneTreeBudget[T comparable](pre, in, post []T, budget int) (ok bool, conclusive bool) {
+	if len(pre) != len(in) || len(pre) != len(post) {
+		return false, true
 	}
-	root := pre[0]
-	if post[n-1] != root {
-		return false
-	}
-	for i := 0; i < n; i++ {
-		if in[i] != root {
-			continue
-		}
-		if oneTree(pre[1:1+i], in[:i], post[:i]) && oneTree(pre[1+i:], in[i+1:], post[i:n-1]) {
+	type key struct{ a, b, c, n int }
+	failed := map[key]bool{}
+	spent := 0
+	var rec func(a, b, c, n int) bool // pre[a:a+n], in[b:b+n], post[c:c+n]
+	rec = func(a, b, c, n int) bool {
+		if n == 0 {
 			return true
 		}
+		spent++
+		if spent > budget {
+			return true
+		}
+		root := pre[a]
+		if post[c+n-1] != root {
+			return false
+		}
+		if n == 1 {
+			return in[b] == root
+		}
+		k := key{a, b, c, n}
+		if failed[k] {
+			return false
+		}
+		for i := 0; i < n; i++ {
+			if in[b+i] != root {
+				continue
+			}
+			// left subtree has i nodes: its root is pre[a+1] and post[c+i-1]
+			if i > 0 && pre[a+1] != post[c+i-1] {
+				continue
+			}
+			// right subtree has n-1-i nodes: its root is pre[a+1+i] and post[c+n-2]
+			if i < n-1 && pre[a+1+i] != post[c+n-2] {
+				continue
+			}
+			if rec(a+1, b, c, i) && rec(a+1+i, b+i+1, c+i, n-1-i) {
+				return true
+			}
+		}
+		if spent <= budget {
+			failed[k] = true
+		}
+		return spent > budget
 	}
-	return false
+	res := rec(0, 0, 0, len(pre))
+	return res, spent <= budget
 }
